@@ -316,15 +316,19 @@ class Ctx:
             both = self._ex[exe].run(doubled)
             ans = both[1::2]
             for l, a1, a2 in zip(lines, both[0::2], both[1::2]):
-                if a1 != a2 and a1 not in ('skipped',) and a2 not in ('skipped',):
+                if not same_observation(a1, a2) and a1 not in ('skipped',) and a2 not in ('skipped',):
                     self.fail('repeat-mismatch|' + l.split()[1], 'the same call made twice in a row answers differently: first %r, then %r (%s)' % (a1[:120], a2[:120], l[:200]),
                               line=l, first=a1, second=a2)
                     break
             self.classes['perturb/repeat'] += len(lines)
         elif self.mode == 'par':
             ans = self._ex[exe].run_par(lines, 8)
-            for l, a in zip(lines, ans):
+            for k_, (l, a) in enumerate(zip(lines, ans)):
                 if a.startswith('par-mismatch'):
+                    per_thread = a[len('par-mismatch '):].split('\t')
+                    if all(same_observation(per_thread[0], t_) for t_ in per_thread[1:]):
+                        ans[k_] = per_thread[0]          # different representatives of the same point: the same observation
+                        continue
                     self.fail('parallel-mismatch|' + l.split()[1], 'the same call answers differently on concurrently running threads: %s (%s)' % (a[:400], l[:200]), line=l, observed=a)
                     break
             self.classes['perturb/parallel'] += len(lines)
@@ -376,6 +380,21 @@ class Ctx:
             'evals': self.evals, 'classes': dict(self.classes), 'distinct': array.array('Q', self.distinct).tobytes(),
             'violations': self.violations, 'samples': self.samples, 'extra': dict(self.extra), 'notes': self.notes, 'hangs': self.hangs,
         }
+
+
+def same_observation(a1, a2):
+    """two answers to the same call are the same observation if they are equal, or if both are Jacobian triples of the same
+    group that denote the same point (which representative a call returns is not specified by any property)"""
+    if a1 == a2:
+        return True
+    if a1.startswith('ok ') and a2.startswith('ok ') and len(a1) == len(a2) and len(a1) - 3 in (192, 384):
+        from . import rm
+        F = rm.F1 if len(a1) - 3 == 192 else rm.F2
+        try:
+            return rm.jac_affine(F, rm.jac_parse(F, a1[3:])) == rm.jac_affine(F, rm.jac_parse(F, a2[3:]))
+        except Exception:
+            return False
+    return False
 
 
 def parse(ans):
